@@ -366,9 +366,6 @@ Definition fits (dw : schema) (a : aval) : bool :=
   | _, _ => false
   end.
 
-Definition is_prim (s : schema) : bool :=
-  match s with SNull | SBool | SInt | SLong | SFloat | SDouble | SBytes | SString => true | _ => false end.
-
 (** no branch of the reader union matches *)
 Theorem error_no_branch we re w r a rbs :
   is_union (deref we w) = false -> fits (deref we w) a = true ->
@@ -751,10 +748,17 @@ Qed.
 
 (* ------------------------------------------------------------------------------------------ *)
 (** * Part D: inside the agreement zone the code's value-level algorithm IS the specification
-      (schemas without by-name references and without annotations) *)
+      (schemas without by-name references; annotations only as dict-form primitives) *)
 
-Lemma inline_deref e s : inline s = true -> deref e s = s.
-Proof. destruct s; cbn [inline]; try discriminate; reflexivity. Qed.
+Lemma inline_deref e s : inline s = true -> deref e s = strip s.
+Proof. destruct s; cbn [inline]; try discriminate; try reflexivity. destruct s; try discriminate; reflexivity. Qed.
+
+(* an annotated schema of the fragment is a dict-form primitive *)
+Lemma inline_strip s : inline s = true -> inline (strip s) = true /\ strip (strip s) = strip s /\ is_union (strip s) = is_union s.
+Proof. destruct s; cbn [inline]; try discriminate; try (repeat split; assumption || reflexivity). destruct s; try discriminate; repeat split; reflexivity. Qed.
+
+Tactic Notation "dsch" constr(w) hyp(H) ident(lw) ident(pw) :=
+  destruct w as [| | | | | | | | | | | | | | |lw pw]; try discriminate H; [..|destruct pw; try discriminate H].
 
 Lemma inline_deref1 e s : inline s = true -> deref1 e s = s.
 Proof. destruct s; cbn [inline]; try discriminate; reflexivity. Qed.
@@ -840,13 +844,6 @@ Proof.
     destruct (find_branch_idx_range _ _ _ E1) as (b & ->). reflexivity.
 Qed.
 
-(** *** match_top on two non-union schemas either rejects or hands back the reader schema *)
-Lemma check_match_inv b ok x : check_match b ok = ROk x -> x = ok /\ b = ROk true.
-Proof.
-  unfold check_match. destruct b as [t| | |]; cbn [rbind]; try discriminate. destruct t; [|discriminate].
-  intros H; injection H as <-. split; reflexivity.
-Qed.
-
 Lemma mfuel_S w : mfuel w = S (2 * amdepth w + 7).
 Proof. unfold mfuel. lia. Qed.
 
@@ -860,37 +857,26 @@ Proof. reflexivity. Qed.
 Lemma is_list_union s : is_list s = is_union s.
 Proof. reflexivity. Qed.
 
-Lemma match_top_nonunion we re w r x :
-  inline w = true -> inline r = true -> is_union w = false -> is_union r = false ->
-  match_top we re w r = ROk x -> x = r.
-Proof.
-  intros Hi Hir Hw Hr. unfold match_top. rewrite mfuel_S, match_schemas_S. unfold match_schemas_body.
-  rewrite (inline_deref1 we w Hi), (inline_deref1 re r Hir), is_list_union, Hw.
-  intros H.
-  assert (G : forall (b : rres bool), check_match b r = ROk x -> x = r) by (intros b Hb; apply check_match_inv in Hb; apply Hb).
-  destruct r; try discriminate Hr; try discriminate Hir;
-    destruct (strip w); try (eapply G; exact H);
-    repeat match type of H with context [if ?c then _ else _] => destruct c end;
-    try discriminate H; try (injection H as <-; reflexivity); try (eapply G; exact H).
-Qed.
-
 (** *** a rejected pair is a resolution error of the specification *)
 Lemma resolve_reject we re n w r a :
   inline w = true -> inline r = true -> is_union w = false -> is_union r = false ->
   typedn (S n) we w a -> smatch we re true w r = false -> resolve we re w r a = RErrResolution.
 Proof.
   intros Hw Hr Huw Hur Ht Hm.
-  destruct w; try discriminate Hw; try discriminate Huw;
+  dsch w Hw ltw pw; try discriminate Huw;
+    try (apply (proj1 (typedn_annot _ _ _ _ _)) in Ht; destruct n as [|n']; [destruct Ht|]);
     destruct a; cbn [typedn] in Ht; try contradiction;
-    destruct r; try discriminate Hr; try discriminate Hur;
+    dsch r Hr ltr pr; try discriminate Hur;
     cbn [smatch deref Read.resolve strip named_match prim_match] in Hm; try discriminate Hm;
     cbn [resolve]; cbv zeta; cbn [deref Read.resolve strip reader_side]; try reflexivity;
     rewrite ?Hm; try reflexivity.
 Qed.
 
-Lemma typed_fits we n w a : inline w = true -> is_union w = false -> typedn (S n) we w a -> fits w a = true.
+Lemma typed_fits we n w a : inline w = true -> is_union w = false -> typedn (S n) we w a -> fits (strip w) a = true.
 Proof.
-  intros Hw Hu Ht. destruct w; try discriminate Hw; try discriminate Hu; destruct a; cbn [typedn] in Ht; try contradiction; reflexivity.
+  intros Hw Hu Ht. dsch w Hw ltw pw; try discriminate Hu;
+    try (apply (proj1 (typedn_annot _ _ _ _ _)) in Ht; destruct n as [|n']; [destruct Ht|]);
+    destruct a; cbn [typedn] in Ht; try contradiction; reflexivity.
 Qed.
 
 (** *** keys of the record under construction: determined by the two field lists *)
@@ -1088,22 +1074,20 @@ Proof. destruct w; reflexivity. Qed.
 Lemma named_pair_ok level sw sr : named_pair level sw sr = ROk (named_pair_b level sw sr).
 Proof. unfold named_pair_b. destruct sw; destruct sr; reflexivity. Qed.
 
-Lemma check_match_ok b r : check_match (ROk b) r = if b then ROk r else RErrResolution.
-Proof. reflexivity. Qed.
-
 Lemma ms_inline we re mt level w r :
   inline w = true -> inline r = true -> is_union w = false -> is_union r = false ->
   (forall wi, (w = SArray wi \/ w = SMap wi) -> forall ri, inline ri = true -> mt 2%nat wi ri = ROk (mspec 2 wi ri)) ->
   match_schemas_body we re mt level w r = if nspec level w r then ROk r else RErrResolution.
 Proof.
-  intros Hw Hr Huw Hur Hsub. unfold match_schemas_body.
+  intros Hw Hr Huw Hur Hsub. unfold match_schemas_body, match_schemas_core.
   rewrite (inline_deref1 we w Hw), (inline_deref1 re r Hr), is_list_union, Huw.
-  destruct w; try discriminate Hw; try discriminate Huw;
-    destruct r; try discriminate Hr; try discriminate Hur;
+  dsch w Hw ltw pw; try discriminate Huw;
+    dsch r Hr ltr pr; try discriminate Hur;
     cbn [strip tag_of in_named_types andb nspec nspec_with];
-    rewrite ?named_pair_ok, ?check_match_ok; try reflexivity.
-  - (* array / array *) rewrite (Hsub w (or_introl eq_refl) r Hr), check_match_ok. reflexivity.
-  - (* map / map *) rewrite (Hsub w (or_intror eq_refl) r Hr), check_match_ok. reflexivity.
+    rewrite ?named_pair_ok;
+    try (match goal with |- context [mt 2%nat ?a ?b] =>
+           first [rewrite (Hsub a (or_introl eq_refl) b Hr) | rewrite (Hsub a (or_intror eq_refl) b Hr)] end);
+    cbn [rbind]; try match goal with |- context [if ?c then _ else _] => destruct c end; reflexivity.
 Qed.
 
 Lemma mt_inline we re ms level w r :
@@ -1117,7 +1101,7 @@ Proof.
   destruct (is_union w) eqn:Huw; [reflexivity|]. destruct (is_union r) eqn:Hur; [reflexivity|]. cbn [orb].
   destruct (is_dict w || is_dict r) eqn:Hd.
   - rewrite (Hms eq_refl eq_refl). destruct (nspec level w r); reflexivity.
-  - destruct w; try discriminate Hw; try discriminate Hd; destruct r; try discriminate Hr; try discriminate Hd; reflexivity.
+  - dsch w Hw ltw pw; try discriminate Hd; dsch r Hr ltr pr; try discriminate Hd; reflexivity.
 Qed.
 
 Lemma match_inline we re : forall w, inline w = true ->
@@ -1161,12 +1145,13 @@ Qed.
 Lemma smatch_mspec we re : forall w r, inline w = true -> inline r = true ->
   smatch we re true w r = mspec 2 w r /\ smatch we re false w r = mspec 1 w r.
 Proof.
-  induction w; intros r Hw Hr; try discriminate Hw;
-    destruct r; try discriminate Hr;
+  induction w as [| | | | | | | | | |wi IHw|wv IHw| | | |ltw pw _]; intros r Hw Hr; try discriminate Hw;
+    [..|destruct pw; try discriminate Hw];
+    dsch r Hr ltr pr;
     cbn [smatch deref Read.resolve strip named_match prim_match mspec is_union orb tag_of in_named_types andb
          match_type_names tag_eqb promotable named_pair_b named_pair Nat.leb];
     try (split; reflexivity).
-  all: try (destruct (IHw r Hw Hr) as [H1 _]; rewrite H1; split; reflexivity).
+  all: try (match goal with |- smatch _ _ true ?a ?b = _ /\ _ => destruct (IHw b Hw Hr) as [H1 _]; rewrite H1; split; reflexivity end).
   all: rewrite names_or; split; try reflexivity; apply andb_comm.
 Qed.
 
@@ -1216,8 +1201,8 @@ Lemma level0_named we re w b : inline w = true -> inline b = true -> is_union w 
   in_named_types (tag_of w) = true -> mspec 0 w b = same_named we re w b.
 Proof.
   intros Hw Hb Huw Hub Hn.
-  destruct w; try discriminate Hw; try discriminate Huw; try discriminate Hn;
-    destruct b; try discriminate Hb; try discriminate Hub; try reflexivity.
+  dsch w Hw ltw pw; try discriminate Huw; try discriminate Hn;
+    dsch b Hb ltb pb; try discriminate Hub; try reflexivity.
   all: cbn; rewrite ?orb_false_r; try reflexivity. apply andb_comm.
 Qed.
 
@@ -1225,8 +1210,8 @@ Lemma level0_plain we re w b : inline w = true -> inline b = true -> is_union w 
   in_named_types (tag_of w) = false -> mspec 0 w b = mspec 1 w b /\ same_named we re w b = false.
 Proof.
   intros Hw Hb Huw Hub Hn.
-  destruct w; try discriminate Hw; try discriminate Huw; try discriminate Hn;
-    destruct b; try discriminate Hb; try discriminate Hub; split; reflexivity.
+  dsch w Hw ltw pw; try discriminate Huw; try discriminate Hn;
+    dsch b Hb ltb pb; try discriminate Hub; split; reflexivity.
 Qed.
 
 Lemma reader_branch_idx_spec we re f w rbs : (2 * amdepth w + 2 <= f)%nat ->
@@ -1264,14 +1249,14 @@ Qed.
 Lemma smatch_false_true we re w b : inline w = true -> inline b = true ->
   smatch we re false w b = true -> smatch we re true w b = true.
 Proof.
-  intros Hw Hb. destruct w; try discriminate Hw; destruct b; try discriminate Hb;
+  intros Hw Hb. dsch w Hw ltw pw; dsch b Hb ltb pb;
     cbn [smatch deref Read.resolve strip prim_match named_match]; try discriminate; trivial.
 Qed.
 
 Lemma same_named_smatch we re w b : inline w = true -> inline b = true -> is_union w = false ->
   same_named we re w b = true -> smatch we re true w b = true.
 Proof.
-  intros Hw Hb Huw. destruct w; try discriminate Hw; try discriminate Huw; destruct b; try discriminate Hb;
+  intros Hw Hb Huw. dsch w Hw ltw pw; try discriminate Huw; dsch b Hb ltb pb;
     cbn [same_named smatch deref Read.resolve strip prim_match named_match]; try discriminate; trivial; intros H.
   - apply andb_prop in H. destruct H as [H1 H2]. apply bytes_eqb_eq in H1. subst. rewrite names_match_refl, H2. reflexivity.
   - apply bytes_eqb_eq in H. subst. apply names_match_refl.
@@ -1548,8 +1533,10 @@ Section Body.
     rbody f we re ropts0 w (Some b) a = resolve we re w b a.
   Proof.
     intros Ht Hf Hw Hb Huw Hub Hm Hs.
-    destruct w; try discriminate Hw; try discriminate Huw; destruct a; cbn [typedn] in Ht; try contradiction;
-      destruct b; try discriminate Hb; try discriminate Hub;
+    dsch w Hw ltw pw; try discriminate Huw;
+      try (apply (proj1 (typedn_annot _ _ _ _ _)) in Ht; apply typedn_mono in Ht);
+      destruct a; cbn [typedn] in Ht; try contradiction;
+      dsch b Hb ltb pb; try discriminate Hub;
       cbn [smatch deref Read.resolve strip named_match prim_match] in Hm; try discriminate Hm;
       cbn [sub_ok] in Hs; try discriminate Hs; try reflexivity.
     - (* fixed *)
@@ -1593,18 +1580,36 @@ Qed.
 Lemma truthy_some r : truthy_ok r = true -> truthy (Some r) = Some r.
 Proof. destruct r; try reflexivity. destruct bs; [discriminate|reflexivity]. Qed.
 
+Lemma deref_nonunion e w : inline w = true -> is_union w = false -> is_union (deref e w) = false.
+Proof. intros Hi Hu. rewrite (inline_deref e w Hi). destruct (inline_strip w Hi) as (_ & _ & ->). exact Hu. Qed.
+
 Lemma reader_side_union we re w rbs k b :
   spec_idx we re w rbs = Some k -> nth_error rbs k = Some b -> inline b = true -> is_union b = false ->
-  reader_side we re w (SUnion rbs) = Some b.
+  reader_side we re w (SUnion rbs) = Some (strip b).
 Proof.
   intros Hk Hn Hi Hu. unfold reader_side. cbn [deref Read.resolve strip]. rewrite pick_branch_idx, Hk, Hn.
-  rewrite (inline_deref re b Hi). destruct b; try discriminate Hu; reflexivity.
+  pose proof (deref_nonunion re b Hi Hu) as Hd. rewrite (inline_deref re b Hi) in *.
+  destruct (strip b); try discriminate Hd; reflexivity.
 Qed.
 
-Lemma reader_side_plain we re w b : inline b = true -> is_union b = false -> reader_side we re w b = Some b.
-Proof. intros Hi Hu. unfold reader_side. rewrite (inline_deref re b Hi). destruct b; try discriminate Hu; reflexivity. Qed.
+Lemma reader_side_plain we re w b : inline b = true -> is_union b = false -> reader_side we re w b = Some (strip b).
+Proof.
+  intros Hi Hu. unfold reader_side. pose proof (deref_nonunion re b Hi Hu) as Hd. rewrite (inline_deref re b Hi) in *.
+  destruct (strip b); try discriminate Hd; reflexivity.
+Qed.
 
 Definition inline_branch := inline_branch_gen.
+
+Lemma spec_idx_strip we re w rbs : inline w = true -> spec_idx we re (strip w) rbs = spec_idx we re w rbs.
+Proof.
+  intros Hw. unfold spec_idx.
+  assert (H0 : find_idx (same_named we re (strip w)) rbs = find_idx (same_named we re w) rbs).
+  { apply find_idx_ext. intros b _. dsch w Hw ltw pw; reflexivity. }
+  assert (H1 : forall promo, find_idx (smatch we re promo (strip w)) rbs = find_idx (smatch we re promo w) rbs).
+  { intros promo. apply find_idx_ext. intros b _. dsch w Hw ltw pw; try reflexivity;
+      cbn [strip smatch]; destruct (deref re b); reflexivity. }
+  rewrite H0, !H1. reflexivity.
+Qed.
 
 Lemma spec_idx_range we re w rbs k : spec_idx we re w rbs = Some k -> exists b, nth_error rbs k = Some b.
 Proof.
@@ -1627,15 +1632,16 @@ Lemma union_reader_union we re wb rbs : truthy_ok (SUnion rbs) = true ->
 Proof. intros H. destruct rbs; [discriminate H|reflexivity]. Qed.
 
 Lemma match_top_union_writer we re wbs r : match_top we re (SUnion wbs) r = ROk r.
-Proof. unfold match_top. rewrite mfuel_S, match_schemas_S. reflexivity. Qed.
+Proof. unfold match_top. rewrite mfuel_S, match_schemas_S. unfold match_schemas_body, match_schemas_core. reflexivity. Qed.
 
 Lemma match_top_union_reader we re w rbs : inline w = true -> is_union w = false ->
   match_top we re w (SUnion rbs) =
   (let+ x := reader_branch (fun l => match_types (pred (mfuel w)) we re l w) rbs in
    match x with Some b => ROk b | None => RErrResolution end).
 Proof.
-  intros Hi Hu. unfold match_top. rewrite mfuel_S, match_schemas_S. cbn [pred]. unfold match_schemas_body.
-  rewrite (inline_deref1 we w Hi), is_list_union, Hu. reflexivity.
+  intros Hi Hu. unfold match_top. rewrite mfuel_S, match_schemas_S. cbn [pred]. unfold match_schemas_body, match_schemas_core.
+  rewrite (inline_deref1 we w Hi), is_list_union, Hu. cbn [deref1].
+  destruct (reader_branch (fun l => match_types (2 * amdepth w + 7) we re l w) rbs) as [[b|]| | |]; reflexivity.
 Qed.
 
 Lemma reader_branch_idx_top we re wb rbs : inline wb = true -> is_union wb = false -> inline (SUnion rbs) = true ->
@@ -1679,13 +1685,13 @@ Proof.
         rewrite (IH we wb a Hx re b f Hf' Hwi Hbi Ha).
         rewrite (resolve_reader_side we re wb (SUnion rbs) b a).
         -- destruct (resolve we re wb b a); reflexivity.
-        -- rewrite (inline_deref we wb Hwi). exact Hwu'.
-        -- rewrite (inline_deref we wb Hwi), (reader_side_union we re wb rbs k b Hk Hnth Hbi Hbu), (reader_side_plain we re wb b Hbi Hbu). reflexivity.
+        -- apply deref_nonunion; assumption.
+        -- rewrite (inline_deref we wb Hwi), (reader_side_union we re (strip wb) rbs k b (eq_trans (spec_idx_strip we re wb rbs Hwi) Hk) Hnth Hbi Hbu), (reader_side_plain we re (strip wb) b Hbi Hbu). reflexivity.
       * symmetry. apply (error_no_branch we re wb (SUnion rbs) a rbs).
-        -- rewrite (inline_deref we wb Hwi). exact Hwu'.
+        -- apply deref_nonunion; assumption.
         -- rewrite (inline_deref we wb Hwi). eapply typed_fits; eassumption.
         -- reflexivity.
-        -- rewrite (inline_deref we wb Hwi), pick_branch_idx, Hk. reflexivity.
+        -- rewrite (inline_deref we wb Hwi), pick_branch_idx, (spec_idx_strip we re wb rbs Hwi), Hk. reflexivity.
     + (* reader not a union *)
       assert (Ha2 : (if smatch we re true wb r then agree we re wb r else true) = true)
         by (destruct r; try discriminate Hur; exact Ha).
@@ -1707,13 +1713,13 @@ Proof.
         pose proof (spec_idx_smatch we re w rbs k b Hw Hu Hr Hk Hnth) as Hm.
         rewrite (body_agree n IH we re w b a f Ht Hf' Hw Hbi Hu Hbu Hm Ha).
         symmetry. apply resolve_reader_side.
-        -- rewrite (inline_deref we w Hw). exact Hu.
-        -- rewrite (inline_deref we w Hw), (reader_side_union we re w rbs k b Hk Hnth Hbi Hbu), (reader_side_plain we re w b Hbi Hbu). reflexivity.
+        -- apply deref_nonunion; assumption.
+        -- rewrite (inline_deref we w Hw), (reader_side_union we re (strip w) rbs k b (eq_trans (spec_idx_strip we re w rbs Hw) Hk) Hnth Hbi Hbu), (reader_side_plain we re (strip w) b Hbi Hbu). reflexivity.
       * symmetry. apply (error_no_branch we re w (SUnion rbs) a rbs).
-        -- rewrite (inline_deref we w Hw). exact Hu.
+        -- apply deref_nonunion; assumption.
         -- rewrite (inline_deref we w Hw). eapply typed_fits; eassumption.
         -- reflexivity.
-        -- rewrite (inline_deref we w Hw), pick_branch_idx, Hk. reflexivity.
+        -- rewrite (inline_deref we w Hw), pick_branch_idx, (spec_idx_strip we re w rbs Hw), Hk. reflexivity.
     + assert (Ha' : (if smatch we re true w r then sub_ok we re w r else true) = true)
         by (destruct r; try discriminate Hur; exact Ha).
       clear Ha. rewrite (match_top_spec we re w r Hw Hr Hu Hur).
@@ -1751,6 +1757,815 @@ Proof.
   intros n e s a Ht Hwf Hi Ha f x Hf. destruct (resolve_identity n e s a Ht Hwf) as (v & H1 & H2).
   exists v. split; [exact H1|]. rewrite (rdec_resolve_zone_wire n e s a Ht e s f x Hf Hi Hi Ha), H2. reflexivity.
 Qed.
+
+(* ------------------------------------------------------------------------------------------ *)
+(** * Part D2: the same with by-name references (recursive types included) *)
+
+Definition nonref (s : schema) : bool := match s with SRef _ => false | _ => true end.
+
+Lemma lookup_in (e : env) n d : lookup e n = Some d -> exists n', In (n', d) e.
+Proof.
+  induction e as [|[k s] e IH]; cbn [lookup]; [discriminate|].
+  destruct (bytes_eqb k n); [intros H; injection H as <-; exists k; left; reflexivity|].
+  intros H. destruct (IH H) as (n' & Hin). exists n'. right. exact Hin.
+Qed.
+
+Lemma lookup_scoped e n d : env_scoped e = true -> lookup e n = Some d -> named_core d = true /\ scoped e d = true.
+Proof.
+  intros He Hl. destruct (lookup_in e n d Hl) as (n' & Hin). unfold env_scoped in He. rewrite forallb_forall in He.
+  specialize (He _ Hin). cbn [snd] in He. apply andb_prop in He. exact He.
+Qed.
+
+Lemma named_core_facts d : named_core d = true -> nonref d = true /\ strip d = d /\ is_union d = false /\ is_dict d = true.
+Proof. destruct d; try discriminate; repeat split; reflexivity. Qed.
+
+(** the node a schema stands for *)
+Lemma deref1_node e s : env_scoped e = true -> scoped e s = true ->
+  nonref (deref1 e s) = true /\ scoped e (deref1 e s) = true /\ deref e s = strip (deref1 e s) /\
+  deref1 e (deref1 e s) = deref1 e s.
+Proof.
+  intros He Hs. destruct s; try (repeat split; try reflexivity; exact Hs).
+  - (* reference *)
+    cbn [scoped] in Hs. cbn [deref1]. destruct (lookup e n) as [d|] eqn:E; [|discriminate Hs].
+    destruct (lookup_scoped e n d He E) as [Hn Hd]. destruct (named_core_facts d Hn) as (H1 & H2 & _ & _).
+    repeat split; try assumption.
+    + unfold deref, Read.resolve. cbn [strip]. rewrite E. reflexivity.
+    + destruct d; try discriminate H1; reflexivity.
+  - (* annotation *)
+    repeat split; try reflexivity; try exact Hs.
+    cbn [scoped] in Hs. destruct s; try discriminate Hs; reflexivity.
+Qed.
+
+Lemma deref1_nonref e s : nonref s = true -> deref1 e s = s.
+Proof. destruct s; try discriminate; reflexivity. Qed.
+
+Lemma scoped_deref e s : env_scoped e = true -> scoped e s = true -> nonref s = true -> deref e s = strip s.
+Proof. intros He Hs Hn. destruct (deref1_node e s He Hs) as (_ & _ & H & _). rewrite H, (deref1_nonref e s Hn). reflexivity. Qed.
+
+(** a non-reference schema of the fragment: a primitive, its dict form, or a composite with scoped parts *)
+Tactic Notation "dnode" constr(w) hyp(Hs) hyp(Hn) ident(lw) ident(pw) :=
+  destruct w as [| | | | | | | | | | | | | | |lw pw]; try discriminate Hn; try discriminate Hs; [..|destruct pw; try discriminate Hs].
+
+(** *** the matchers on scoped schemas *)
+Definition leaf_spec (level : nat) (w' r' : schema) : bool :=
+  if in_named_types (tag_of w') && in_named_types (tag_of r') then named_pair_b level (strip w') (strip r')
+  else match_type_names (tag_of w') (tag_of r') level.
+
+(* on the writer schema as given and the DEREFERENCED reader schema *)
+Fixpoint mspecS (we re : env) (level : nat) (w r : schema) {struct w} : bool :=
+  let r' := deref1 re r in
+  match w with
+  | SUnion _ => true
+  | SMap wv => is_union r' || match r' with SMap rv => mspecS we re 2 wv rv | _ => leaf_spec level w r' end
+  | SArray wi => is_union r' || match r' with SArray ri => mspecS we re 2 wi ri | _ => leaf_spec level w r' end
+  | _ => let w' := deref1 we w in is_union r' || leaf_spec level w' r'
+  end.
+
+Definition nspecS (we re : env) (level : nat) (w' r' : schema) : bool :=     (* both dereferenced, neither a union *)
+  match w', r' with
+  | SMap wv, SMap rv => mspecS we re 2 wv rv
+  | SArray wi, SArray ri => mspecS we re 2 wi ri
+  | _, _ => leaf_spec level w' r'
+  end.
+
+Lemma mspecS_node we re level w r : env_scoped we = true -> scoped we w = true ->
+  mspecS we re level w r = is_union (deref1 we w) || is_union (deref1 re r) || nspecS we re level (deref1 we w) (deref1 re r).
+Proof.
+  intros He Hs. destruct w; cbn [mspecS deref1 is_union orb]; try (destruct (deref1 re r); reflexivity).
+  (* reference *)
+  cbn [scoped] in Hs. destruct (lookup we n) as [d|] eqn:E; [|discriminate Hs].
+  destruct (lookup_scoped we n d He E) as [Hn _]. destruct (named_core_facts d Hn) as (_ & _ & Hu & _). rewrite Hu. cbn [orb].
+  destruct d; try discriminate Hn; destruct (deref1 re r); reflexivity.
+Qed.
+
+Lemma ms_core_scoped we re mt level w' r' :
+  nonref w' = true -> scoped we w' = true -> nonref r' = true -> scoped re r' = true ->
+  is_union w' = false -> is_union r' = false ->
+  (forall wi, (w' = SArray wi \/ w' = SMap wi) -> forall ri, scoped re ri = true -> mt 2%nat wi ri = ROk (mspecS we re 2 wi ri)) ->
+  match_schemas_core mt level w' r' = if nspecS we re level w' r' then ROk None else RErrResolution.
+Proof.
+  intros Hnw Hw Hnr Hr Huw Hur Hsub. unfold match_schemas_core. rewrite is_list_union, Huw.
+  dnode w' Hw Hnw ltw pw; try discriminate Huw;
+    dnode r' Hr Hnr ltr pr; try discriminate Hur;
+    cbn [strip tag_of in_named_types andb nspecS leaf_spec];
+    rewrite ?named_pair_ok;
+    try (match goal with |- context [mt 2%nat ?a ?b] =>
+           first [rewrite (Hsub a (or_introl eq_refl) b Hr) | rewrite (Hsub a (or_intror eq_refl) b Hr)] end);
+    cbn [rbind]; try match goal with |- context [if ?c then _ else _] => destruct c end; reflexivity.
+Qed.
+
+Lemma mt_scoped we re ms level w r :
+  env_scoped we = true -> env_scoped re = true -> scoped we w = true -> scoped re r = true ->
+  (is_union (deref1 we w) = false -> is_union (deref1 re r) = false ->
+   ms level (deref1 we w) (deref1 re r) =
+   if nspecS we re level (deref1 we w) (deref1 re r) then ROk (deref1 re r) else RErrResolution) ->
+  match_types_body we re ms level w r = ROk (mspecS we re level w r).
+Proof.
+  intros Hew Her Hw Hr Hms. unfold match_types_body. rewrite (mspecS_node we re level w r Hew Hw).
+  destruct (deref1_node we w Hew Hw) as (Hnw & Hsw & _ & _). destruct (deref1_node re r Her Hr) as (Hnr & Hsr & _ & _).
+  set (w' := deref1 we w) in *. set (r' := deref1 re r) in *.
+  change (is_list w') with (is_union w'); change (is_list r') with (is_union r').
+  destruct (is_union w') eqn:Huw; [reflexivity|]. destruct (is_union r') eqn:Hur; [reflexivity|]. cbn [orb].
+  destruct (is_dict w' || is_dict r') eqn:Hd.
+  - rewrite (Hms eq_refl eq_refl). destruct (nspecS we re level w' r'); reflexivity.
+  - clearbody w' r'. dnode w' Hsw Hnw ltw pw; try discriminate Hd; dnode r' Hsr Hnr ltr pr; try discriminate Hd; reflexivity.
+Qed.
+
+Lemma ms_node_scoped we re f level w' r' :
+  nonref w' = true -> scoped we w' = true -> nonref r' = true -> scoped re r' = true ->
+  is_union w' = false -> is_union r' = false ->
+  (forall wi, (w' = SArray wi \/ w' = SMap wi) -> forall ri, scoped re ri = true ->
+      match_types f we re 2 wi ri = ROk (mspecS we re 2 wi ri)) ->
+  match_schemas (S f) we re level w' r' = if nspecS we re level w' r' then ROk r' else RErrResolution.
+Proof.
+  intros Hnw Hw Hnr Hr Huw Hur Hsub. rewrite match_schemas_S. unfold match_schemas_body.
+  rewrite (deref1_nonref we w' Hnw), (deref1_nonref re r' Hnr).
+  rewrite (ms_core_scoped we re (match_types f we re) level w' r' Hnw Hw Hnr Hr Huw Hur Hsub).
+  destruct (nspecS we re level w' r'); reflexivity.
+Qed.
+
+Lemma match_scoped we re : env_scoped we = true -> env_scoped re = true -> forall w, scoped we w = true ->
+  (forall f level r, (2 * amdepth w + 2 <= f)%nat -> scoped re r = true ->
+     match_types f we re level w r = ROk (mspecS we re level w r)) /\
+  (forall f level r', (2 * amdepth w + 1 <= f)%nat -> nonref w = true -> nonref r' = true -> scoped re r' = true ->
+     is_union w = false -> is_union r' = false ->
+     match_schemas f we re level w r' = if nspecS we re level w r' then ROk r' else RErrResolution).
+Proof.
+  intros Hew Her.
+  assert (Step : forall w, scoped we w = true ->
+     (forall wi, (w = SArray wi \/ w = SMap wi) -> forall f level r, (2 * amdepth wi + 2 <= f)%nat -> scoped re r = true ->
+                 match_types f we re level wi r = ROk (mspecS we re level wi r)) ->
+     (forall f level r, (2 * amdepth w + 2 <= f)%nat -> scoped re r = true ->
+        match_types f we re level w r = ROk (mspecS we re level w r)) /\
+     (forall f level r', (2 * amdepth w + 1 <= f)%nat -> nonref w = true -> nonref r' = true -> scoped re r' = true ->
+        is_union w = false -> is_union r' = false ->
+        match_schemas f we re level w r' = if nspecS we re level w r' then ROk r' else RErrResolution)).
+  { intros w Hw Hsub.
+    assert (HS : forall f level r', (2 * amdepth w + 1 <= f)%nat -> nonref w = true -> nonref r' = true -> scoped re r' = true ->
+        is_union w = false -> is_union r' = false ->
+        match_schemas f we re level w r' = if nspecS we re level w r' then ROk r' else RErrResolution).
+    { intros f level r' Hf Hnw Hnr Hr Huw Hur. destruct f as [|f]; [lia|].
+      apply ms_node_scoped; try assumption. intros wi Hwi ri Hri. apply (Hsub wi Hwi); [|exact Hri].
+      destruct Hwi as [-> | ->]; cbn [amdepth] in Hf; lia. }
+    split; [|exact HS].
+    intros f level r Hf Hr. destruct f as [|f]; [lia|]. rewrite match_types_S.
+    apply mt_scoped; try assumption. intros Huw Hur.
+    destruct (deref1_node re r Her Hr) as (Hnr & Hsr & _ & _).
+    destruct (nonref w) eqn:Hnw.
+    - rewrite (deref1_nonref we w Hnw) in *. apply HS; try assumption; try reflexivity. lia.
+    - (* a reference: its definition is a named type *)
+      destruct w; try discriminate Hnw. cbn [scoped] in Hw. cbn [deref1] in *.
+      destruct (lookup we n) as [d|] eqn:E; [|discriminate Hw].
+      destruct (lookup_scoped we n d Hew E) as [Hn Hd]. destruct (named_core_facts d Hn) as (H1 & _ & _ & _).
+      destruct f as [|f]; [lia|]. apply ms_node_scoped; try assumption.
+      intros wi [->| ->]; discriminate Hn. }
+  induction w; intros Hi; apply Step; try exact Hi; intros wi [E|E]; try discriminate E.
+  - injection E as <-. apply IHw. exact Hi.
+  - injection E as <-. apply IHw. exact Hi.
+Qed.
+
+(** the specification's [smatch] is the same predicate *)
+Lemma smatch_mspecS we re : env_scoped we = true -> env_scoped re = true ->
+  forall w r, scoped we w = true -> scoped re r = true ->
+  smatch we re true w r = mspecS we re 2 w r /\ smatch we re false w r = mspecS we re 1 w r.
+Proof.
+  intros Hew Her.
+  induction w as [| | | | | | | | | |wi IHw|wv IHw| | |nm|ltw pw _]; intros r Hw Hr;
+    destruct (deref1_node re r Her Hr) as (Hnr & Hsr & Hd & _);
+    cbn [smatch mspecS]; rewrite Hd; set (r' := deref1 re r) in *; clearbody r'.
+  15:{ (* reference *)
+    cbn [scoped] in Hw. unfold deref, Read.resolve. cbn [strip deref1].
+    destruct (lookup we nm) as [d|] eqn:E; [|discriminate Hw].
+    destruct (lookup_scoped we nm d Hew E) as [Hn _].
+    destruct d; try discriminate Hn; dnode r' Hsr Hnr ltr pr;
+      cbn [strip named_match is_union orb leaf_spec tag_of in_named_types andb named_pair_b named_pair match_type_names tag_eqb promotable Nat.leb];
+      try (split; reflexivity); rewrite names_or; split; try reflexivity; apply andb_comm. }
+  15:{ (* annotation *)
+    cbn [scoped] in Hw. destruct pw; try discriminate Hw; cbn [smatch]; rewrite ?Hd; dnode r' Hsr Hnr ltr pr; split; reflexivity. }
+  all: dnode r' Hsr Hnr ltr pr;
+    cbn [strip deref1 named_match prim_match is_union orb leaf_spec tag_of in_named_types andb named_pair_b named_pair
+         match_type_names tag_eqb promotable Nat.leb];
+    try (split; reflexivity).
+  all: try (match goal with |- smatch _ _ true ?a ?b = _ /\ _ => destruct (IHw b Hw Hsr) as [H1 _]; rewrite H1; split; reflexivity end).
+  all: rewrite names_or; split; try reflexivity; apply andb_comm.
+Qed.
+
+Lemma match_types_scoped we re f w r : env_scoped we = true -> env_scoped re = true ->
+  (2 * amdepth w + 2 <= f)%nat -> scoped we w = true -> scoped re r = true ->
+  match_types f we re 2 w r = ROk (smatch we re true w r).
+Proof.
+  intros Hew Her Hf Hw Hr.
+  rewrite (proj1 (match_scoped we re Hew Her w Hw) f 2%nat r Hf Hr), (proj1 (smatch_mspecS we re Hew Her w r Hw Hr)). reflexivity.
+Qed.
+
+(** level 0 of the code = "the very same named type" of the specification; for a writer type that is not
+    named, levels 0 and 1 coincide *)
+Lemma level0_scoped we re w b : env_scoped we = true -> env_scoped re = true ->
+  scoped we w = true -> scoped re b = true -> is_union (deref1 we w) = false -> is_union (deref1 re b) = false ->
+  (in_named_types (tag_of (deref1 we w)) = true -> mspecS we re 0 w b = same_named we re w b) /\
+  (in_named_types (tag_of (deref1 we w)) = false -> mspecS we re 0 w b = mspecS we re 1 w b /\ same_named we re w b = false).
+Proof.
+  intros Hew Her Hw Hb Huw Hub.
+  rewrite !(mspecS_node we re _ w b Hew Hw), Huw, Hub. cbn [orb]. unfold same_named.
+  destruct (deref1_node we w Hew Hw) as (Hnw & Hsw & Hdw & _). destruct (deref1_node re b Her Hb) as (Hnb & Hsb & Hdb & _).
+  rewrite Hdw, Hdb. set (w' := deref1 we w) in *. set (b' := deref1 re b) in *. clearbody w' b'.
+  split; intros Hn;
+    dnode w' Hsw Hnw ltw pw; try discriminate Huw; try discriminate Hn;
+    dnode b' Hsb Hnb ltb pb; try discriminate Hub;
+    cbn; rewrite ?orb_false_r; try reflexivity; try (split; reflexivity); apply andb_comm.
+Qed.
+
+Lemma scoped_branch e rbs b : scoped e (SUnion rbs) = true -> In b rbs -> scoped e b = true /\ is_union b = false.
+Proof.
+  cbn [scoped]. intros H Hin. rewrite forallb_forall in H. specialize (H b Hin).
+  apply andb_prop in H. destruct H as [H1 H2]. split; [exact H2|]. destruct (is_union b); [discriminate|reflexivity].
+Qed.
+
+Lemma nonunion_deref1 e b : env_scoped e = true -> scoped e b = true -> is_union b = false -> is_union (deref1 e b) = false.
+Proof.
+  intros He Hb Hu. destruct b; try exact Hu; try reflexivity. cbn [scoped] in Hb. cbn [deref1].
+  destruct (lookup e n) as [d|] eqn:E; [|discriminate Hb]. destruct (lookup_scoped e n d He E) as [Hn _].
+  destruct d; try discriminate Hn; reflexivity.
+Qed.
+
+Lemma reader_branch_idx_scoped we re f w rbs : env_scoped we = true -> env_scoped re = true ->
+  (2 * amdepth w + 2 <= f)%nat -> scoped we w = true -> is_union (deref1 we w) = false -> scoped re (SUnion rbs) = true ->
+  reader_branch_idx (fun l => match_types f we re l w) rbs = ROk (spec_idx we re w rbs).
+Proof.
+  intros Hew Her Hf Hw Huw Hr.
+  assert (Hb : forall b, In b rbs -> scoped re b = true /\ is_union (deref1 re b) = false).
+  { intros b Hin. destruct (scoped_branch re rbs b Hr Hin) as [H1 H2]. split; [exact H1|]. apply nonunion_deref1; assumption. }
+  assert (Hmt : forall l b, In b rbs -> match_types f we re l w b = ROk (mspecS we re l w b)).
+  { intros l b Hin. apply (proj1 (match_scoped we re Hew Her w Hw)); [exact Hf|apply Hb; exact Hin]. }
+  unfold reader_branch_idx, spec_idx.
+  rewrite (find_branch_idx_pure _ (mspecS we re 0 w) rbs (Hmt 0%nat)),
+          (find_branch_idx_pure _ (mspecS we re 1 w) rbs (Hmt 1%nat)),
+          (find_branch_idx_pure _ (mspecS we re 2 w) rbs (Hmt 2%nat)). cbn [rbind].
+  assert (H1 : find_idx (smatch we re false w) rbs = find_idx (mspecS we re 1 w) rbs).
+  { apply find_idx_ext. intros b Hin. apply (smatch_mspecS we re Hew Her w b Hw). apply Hb; exact Hin. }
+  assert (H2 : find_idx (smatch we re true w) rbs = find_idx (mspecS we re 2 w) rbs).
+  { apply find_idx_ext. intros b Hin. apply (smatch_mspecS we re Hew Her w b Hw). apply Hb; exact Hin. }
+  rewrite H1, H2.
+  destruct (in_named_types (tag_of (deref1 we w))) eqn:Hn.
+  - assert (H0 : find_idx (same_named we re w) rbs = find_idx (mspecS we re 0 w) rbs).
+    { apply find_idx_ext. intros b Hin. destruct (Hb b Hin) as [Hbi Hbu]. symmetry.
+      apply (proj1 (level0_scoped we re w b Hew Her Hw Hbi Huw Hbu) Hn). }
+    rewrite H0. destruct (find_idx (mspecS we re 0 w) rbs); [reflexivity|].
+    destruct (find_idx (mspecS we re 1 w) rbs); reflexivity.
+  - assert (H0 : find_idx (same_named we re w) rbs = None).
+    { apply find_idx_none. intros b Hin. destruct (Hb b Hin) as [Hbi Hbu].
+      apply (proj2 (level0_scoped we re w b Hew Her Hw Hbi Huw Hbu) Hn). }
+    assert (H01 : find_idx (mspecS we re 0 w) rbs = find_idx (mspecS we re 1 w) rbs).
+    { apply find_idx_ext. intros b Hin. destruct (Hb b Hin) as [Hbi Hbu].
+      apply (proj2 (level0_scoped we re w b Hew Her Hw Hbi Huw Hbu) Hn). }
+    rewrite H0, H01. destruct (find_idx (mspecS we re 1 w) rbs); reflexivity.
+Qed.
+
+(** *** dereferencing is invisible to the specification *)
+Lemma deref_deref1 e s : env_scoped e = true -> scoped e s = true -> deref e (deref1 e s) = deref e s.
+Proof.
+  intros He Hs. destruct (deref1_node e s He Hs) as (Hn & Hs' & Hd & Hi).
+  destruct (deref1_node e (deref1 e s) He Hs') as (_ & _ & Hd' & _). rewrite Hd', Hi, Hd. reflexivity.
+Qed.
+
+Lemma resolve_deref1_r we re w r a : env_scoped re = true -> scoped re r = true ->
+  resolve we re w (deref1 re r) a = resolve we re w r a.
+Proof. intros He Hr. apply resolve_deref_r. apply deref_deref1; assumption. Qed.
+
+Lemma resolve_deref1_w we re w r a : env_scoped we = true -> scoped we w = true ->
+  resolve we re (deref1 we w) r a = resolve we re w r a.
+Proof. intros He Hw. apply resolve_deref_w. apply deref_deref1; assumption. Qed.
+
+Lemma smatch_deref_r we re promo : forall w r r', deref re r = deref re r' -> smatch we re promo w r = smatch we re promo w r'.
+Proof.
+  induction w; intros r r' H; cbn [smatch]; rewrite H; try reflexivity.
+  rewrite (IHw r r' H). reflexivity.
+Qed.
+
+Lemma smatch_deref1_r we re promo w r : env_scoped re = true -> scoped re r = true ->
+  smatch we re promo w (deref1 re r) = smatch we re promo w r.
+Proof. intros He Hr. apply smatch_deref_r. apply deref_deref1; assumption. Qed.
+
+Lemma smatch_deref1_w we re promo w r : env_scoped we = true -> scoped we w = true ->
+  smatch we re promo (deref1 we w) r = smatch we re promo w r.
+Proof.
+  intros He Hw. destruct w; try reflexivity. cbn [scoped] in Hw. cbn [deref1 smatch].
+  destruct (lookup we n) as [d|] eqn:E; [|discriminate Hw]. destruct (lookup_scoped we n d He E) as [Hn _].
+  unfold deref, Read.resolve. cbn [strip]. rewrite E.
+  destruct d; try discriminate Hn; cbn [smatch strip]; reflexivity.
+Qed.
+
+Lemma same_named_deref1_w we re w b : env_scoped we = true -> scoped we w = true ->
+  same_named we re (deref1 we w) b = same_named we re w b.
+Proof. intros He Hw. unfold same_named. rewrite (deref_deref1 we w He Hw). reflexivity. Qed.
+
+Lemma spec_idx_deref1 we re w rbs : env_scoped we = true -> scoped we w = true ->
+  spec_idx we re (deref1 we w) rbs = spec_idx we re w rbs.
+Proof.
+  intros He Hw. unfold spec_idx.
+  rewrite (find_idx_ext (same_named we re (deref1 we w)) (same_named we re w) rbs (fun b _ => same_named_deref1_w we re w b He Hw)).
+  rewrite (find_idx_ext (smatch we re false (deref1 we w)) (smatch we re false w) rbs (fun b _ => smatch_deref1_w we re false w b He Hw)).
+  rewrite (find_idx_ext (smatch we re true (deref1 we w)) (smatch we re true w) rbs (fun b _ => smatch_deref1_w we re true w b He Hw)).
+  reflexivity.
+Qed.
+
+Lemma deref1_union e r rbs : env_scoped e = true -> scoped e r = true -> deref1 e r = SUnion rbs -> r = SUnion rbs.
+Proof.
+  intros He Hr H. destruct r; try exact H. cbn [scoped] in Hr. cbn [deref1] in H.
+  destruct (lookup e n) as [d|] eqn:E; [|discriminate Hr]. destruct (lookup_scoped e n d He E) as [Hn _].
+  subst d. discriminate Hn.
+Qed.
+
+(** *** the verdicts of match_schemas on scoped schemas *)
+Lemma match_schemas_scoped we re f level w r : env_scoped we = true -> env_scoped re = true ->
+  (2 * amdepth w + 1 <= f)%nat -> scoped we w = true -> scoped re r = true ->
+  is_union (deref1 we w) = false -> is_union (deref1 re r) = false ->
+  match_schemas f we re level w r =
+  if nspecS we re level (deref1 we w) (deref1 re r) then ROk r else RErrResolution.
+Proof.
+  intros Hew Her Hf Hw Hr Huw Hur. destruct f as [|f]; [lia|]. rewrite match_schemas_S. unfold match_schemas_body.
+  destruct (deref1_node we w Hew Hw) as (Hnw & Hsw & _ & _). destruct (deref1_node re r Her Hr) as (Hnr & Hsr & _ & _).
+  rewrite (ms_core_scoped we re (match_types f we re) level (deref1 we w) (deref1 re r) Hnw Hsw Hnr Hsr Huw Hur).
+  - destruct (nspecS we re level (deref1 we w) (deref1 re r)); reflexivity.
+  - intros wi Hwi ri Hri.
+    assert (Hww : deref1 we w = w).
+    { destruct w; try reflexivity. cbn [scoped] in Hw. cbn [deref1] in Hwi |- *.
+      destruct (lookup we n) as [d|] eqn:E; [|discriminate Hw]. destruct (lookup_scoped we n d Hew E) as [Hn _].
+      destruct Hwi as [->| ->]; discriminate Hn. }
+    rewrite Hww in Hwi.
+    apply (proj1 (match_scoped we re Hew Her wi ltac:(destruct Hwi as [->| ->]; exact Hw))); [|exact Hri].
+    destruct Hwi as [->| ->]; cbn [amdepth] in Hf; lia.
+Qed.
+
+Lemma match_top_scoped we re w r : env_scoped we = true -> env_scoped re = true ->
+  scoped we w = true -> scoped re r = true -> is_union (deref1 we w) = false -> is_union (deref1 re r) = false ->
+  match_top we re w r = if smatch we re true w r then ROk r else RErrResolution.
+Proof.
+  intros Hew Her Hw Hr Huw Hur. unfold match_top.
+  rewrite (match_schemas_scoped we re (mfuel w) 2 w r Hew Her ltac:(unfold mfuel; lia) Hw Hr Huw Hur).
+  rewrite (proj1 (smatch_mspecS we re Hew Her w r Hw Hr)), (mspecS_node we re 2 w r Hew Hw), Huw, Hur. reflexivity.
+Qed.
+
+Lemma match_top_scoped_union we re w rbs : env_scoped we = true -> scoped we w = true -> is_union (deref1 we w) = false ->
+  match_top we re w (SUnion rbs) =
+  (let+ x := reader_branch (fun l => match_types (pred (mfuel w)) we re l (deref1 we w)) rbs in
+   match x with Some b => ROk b | None => RErrResolution end).
+Proof.
+  intros He Hw Hu. unfold match_top. rewrite mfuel_S, match_schemas_S. cbn [pred]. unfold match_schemas_body, match_schemas_core.
+  rewrite is_list_union, Hu. cbn [deref1].
+  destruct (reader_branch (fun l => match_types (2 * amdepth w + 7) we re l (deref1 we w)) rbs) as [[b|]| | |]; reflexivity.
+Qed.
+
+Lemma amdepth_deref1 e w : env_scoped e = true -> scoped e w = true -> amdepth (deref1 e w) = amdepth w.
+Proof.
+  intros He Hw. destruct w; try reflexivity. cbn [scoped] in Hw. cbn [deref1 amdepth].
+  destruct (lookup e n) as [d|] eqn:E; [|discriminate Hw]. destruct (lookup_scoped e n d He E) as [Hn _].
+  destruct d; try discriminate Hn; reflexivity.
+Qed.
+
+(** *** nodes: a writer schema that is no reference meets a dereferenced reader schema *)
+Lemma resolve_rejectS we re n w b a :
+  nonref w = true -> scoped we w = true -> nonref b = true -> scoped re b = true ->
+  is_union w = false -> is_union b = false ->
+  typedn (S n) we w a -> smatch we re true w b = false -> resolve we re w b a = RErrResolution.
+Proof.
+  intros Hnw Hw Hnb Hb Huw Hub Ht Hm.
+  dnode w Hw Hnw ltw pw; try discriminate Huw;
+    try (apply (proj1 (typedn_annot _ _ _ _ _)) in Ht; destruct n as [|n']; [destruct Ht|]);
+    destruct a; cbn [typedn] in Ht; try contradiction;
+    dnode b Hb Hnb ltb pb; try discriminate Hub;
+    cbn [smatch deref Read.resolve strip named_match prim_match] in Hm; try discriminate Hm;
+    cbn [resolve]; cbv zeta; cbn [deref Read.resolve strip reader_side]; try reflexivity;
+    rewrite ?Hm; try reflexivity.
+Qed.
+
+Lemma typed_fitsS we n w a : nonref w = true -> scoped we w = true -> is_union w = false ->
+  typedn (S n) we w a -> fits (strip w) a = true.
+Proof.
+  intros Hnw Hw Hu Ht. dnode w Hw Hnw ltw pw; try discriminate Hu;
+    try (apply (proj1 (typedn_annot _ _ _ _ _)) in Ht; destruct n as [|n']; [destruct Ht|]);
+    destruct a; cbn [typedn] in Ht; try contradiction; reflexivity.
+Qed.
+
+Lemma leaf_spec_mono l1 l2 w' r' : (l1 <= l2)%nat -> leaf_spec l1 w' r' = true -> leaf_spec l2 w' r' = true.
+Proof.
+  intros Hl. unfold leaf_spec, named_pair_b, named_pair, match_type_names.
+  destruct (in_named_types (tag_of w') && in_named_types (tag_of r')).
+  - destruct (strip w'); destruct (strip r'); try (intros H; exact H);
+      intros H; repeat (apply andb_prop in H; destruct H as [? H]);
+      destruct (1 <=? l1)%nat eqn:E1; destruct (1 <=? l2)%nat eqn:E2; try lia; rewrite ?andb_true_l, ?andb_false_l, ?orb_false_r in *;
+      try assumption; try (rewrite H; rewrite ?orb_true_r; try reflexivity).
+    all: try (match goal with H0 : (_ =? _) = true |- _ => rewrite H0 end; cbn [andb]; rewrite H; rewrite ?orb_true_r; reflexivity).
+    all: try (apply orb_true_iff; left; assumption).
+  - intros H. apply orb_prop in H. destruct H as [H|H]; [rewrite H; reflexivity|].
+    apply andb_prop in H. destruct H as [H1 H2]. rewrite H2. destruct (2 <=? l2)%nat eqn:E; [rewrite orb_true_r; reflexivity|lia].
+Qed.
+
+Lemma mspecS_mono we re l1 l2 w r : env_scoped we = true -> scoped we w = true -> (l1 <= l2)%nat ->
+  mspecS we re l1 w r = true -> mspecS we re l2 w r = true.
+Proof.
+  intros He Hw Hl. rewrite !(mspecS_node we re _ w r He Hw).
+  destruct (is_union (deref1 we w)); [trivial|]. destruct (is_union (deref1 re r)); [trivial|]. cbn [orb].
+  unfold nspecS. destruct (deref1 we w); destruct (deref1 re r); try (apply leaf_spec_mono; exact Hl); trivial.
+Qed.
+
+Lemma spec_idx_smatchS we re w rbs k b : env_scoped we = true -> env_scoped re = true ->
+  scoped we w = true -> is_union (deref1 we w) = false -> scoped re (SUnion rbs) = true ->
+  spec_idx we re w rbs = Some k -> nth_error rbs k = Some b -> smatch we re true w b = true.
+Proof.
+  intros Hew Her Hw Huw Hr Hk Hn.
+  destruct (scoped_branch re rbs b Hr (nth_error_In _ _ Hn)) as [Hbs Hbu].
+  pose proof (nonunion_deref1 re b Her Hbs Hbu) as Hbu'.
+  destruct (smatch_mspecS we re Hew Her w b Hw Hbs) as [E2 E1].
+  unfold spec_idx in Hk.
+  destruct (find_idx (same_named we re w) rbs) as [k0|] eqn:E0.
+  - injection Hk as <-. destruct (find_idx_some _ _ _ E0) as (x & Hx & Px). rewrite Hn in Hx. injection Hx as <-.
+    destruct (level0_scoped we re w b Hew Her Hw Hbs Huw Hbu') as [L0 L1].
+    destruct (in_named_types (tag_of (deref1 we w))) eqn:Hnm.
+    + rewrite E2. apply (mspecS_mono we re 0 2 w b Hew Hw ltac:(lia)). rewrite (L0 eq_refl). exact Px.
+    + destruct (L1 eq_refl) as [_ Hf]. congruence.
+  - destruct (find_idx (smatch we re false w) rbs) as [k1|] eqn:E1'.
+    + injection Hk as <-. destruct (find_idx_some _ _ _ E1') as (x & Hx & Px). rewrite Hn in Hx. injection Hx as <-.
+      rewrite E2. apply (mspecS_mono we re 1 2 w b Hew Hw ltac:(lia)). rewrite <- E1. exact Px.
+    + destruct (find_idx_some _ _ _ Hk) as (x & Hx & Px). rewrite Hn in Hx. injection Hx as <-. exact Px.
+Qed.
+
+
+(** the reader schema the specification resolves against *)
+Lemma reader_sideS_plain we re dw b : env_scoped re = true -> scoped re b = true -> is_union (deref1 re b) = false ->
+  reader_side we re dw b = Some (strip (deref1 re b)).
+Proof.
+  intros He Hb Hu. unfold reader_side. destruct (deref1_node re b He Hb) as (Hn & Hs & Hd & _). rewrite Hd.
+  set (b' := deref1 re b) in *. clearbody b'. dnode b' Hs Hn ltb pb; try discriminate Hu; reflexivity.
+Qed.
+
+Lemma reader_sideS_union we re dw rbs k b : env_scoped re = true ->
+  spec_idx we re dw rbs = Some k -> nth_error rbs k = Some b -> scoped re b = true -> is_union (deref1 re b) = false ->
+  reader_side we re dw (SUnion rbs) = Some (strip (deref1 re b)).
+Proof.
+  intros He Hk Hn Hb Hu. unfold reader_side. cbn [deref Read.resolve strip]. rewrite pick_branch_idx, Hk, Hn.
+  destruct (deref1_node re b He Hb) as (Hnb & Hs & Hd & _). rewrite Hd.
+  set (b' := deref1 re b) in *. clearbody b'. dnode b' Hs Hnb ltb pb; try discriminate Hu; reflexivity.
+Qed.
+
+(** *** unfolding [agreen] *)
+Definition node_ok (k : nat) (we re : env) (w' b : schema) : bool :=
+  match w', b with
+  | SEnum _ _ _ _, SEnum _ _ _ (Some []) => false
+  | SArray wi, SArray ri => agreen k we re wi ri
+  | SMap wv, SMap rv => agreen k we re wv rv
+  | SRecord _ _ wfs, SRecord _ _ rfs =>
+      forallb (fun wf => match reader_field rfs (fname wf) with
+                         | Some rf => agreen k we re (ftype wf) (ftype rf)
+                         | None => true end) wfs
+      && defaults_ok re rfs
+  | _, _ => true
+  end.
+
+Lemma agreen_node k we re w r : nonref w = true -> is_union w = false ->
+  agreen (S k) we re w r =
+  truthy_ok r &&
+  match deref1 re r with
+  | SUnion rbs => match spec_idx we re w rbs with
+                  | Some j => match nth_error rbs j with Some b => node_ok k we re w (deref1 re b) | None => true end
+                  | None => true
+                  end
+  | _ => if smatch we re true w r then node_ok k we re w (deref1 re r) else true
+  end.
+Proof. intros Hn Hu. destruct w; try discriminate Hn; try discriminate Hu; reflexivity. Qed.
+
+Lemma agreen_ref k we re nm r :
+  agreen (S k) we re (SRef nm) r =
+  truthy_ok r &&
+  match lookup we nm with
+  | None => false
+  | Some wd =>
+      match deref1 re r with
+      | SUnion rbs => match spec_idx we re (SRef nm) rbs with
+                      | Some j => match nth_error rbs j with Some b => agreen k we re wd (deref1 re b) | None => true end
+                      | None => true
+                      end
+      | _ => if smatch we re true (SRef nm) r then agreen k we re wd (deref1 re r) else true
+      end
+  end.
+Proof. reflexivity. Qed.
+
+Lemma agreen_union k we re wbs r :
+  agreen (S k) we re (SUnion wbs) r =
+  truthy_ok r &&
+  forallb (fun wb =>
+          match deref1 re r with
+          | SUnion rbs => match spec_idx we re wb rbs with
+                          | Some j => match nth_error rbs j with Some b => agreen k we re wb b | None => true end
+                          | None => true
+                          end
+          | _ => if smatch we re true wb r then agreen k we re wb (deref1 re r) else true
+          end) wbs.
+Proof. reflexivity. Qed.
+
+Section BodyS.
+  Variable n : nat.
+  Hypothesis IH : forall we w a, typedn n we w a -> forall re r k f, (n <= k)%nat -> (n <= f)%nat ->
+    env_scoped we = true -> env_scoped re = true -> scoped we w = true -> scoped re r = true ->
+    agreen k we re w r = true ->
+    rval f we re ropts0 w (Some r) a = resolve we re w r a.
+
+  Lemma items_agreeS we re wi ri k f l : (n <= k)%nat -> (n <= f)%nat ->
+    env_scoped we = true -> env_scoped re = true -> scoped we wi = true -> scoped re ri = true ->
+    agreen k we re wi ri = true -> Forall (typedn n we wi) l ->
+    vitems (fun a => rval f we re ropts0 wi (Some ri) a) l = res_items (resolve we re) wi ri l.
+  Proof.
+    intros Hk Hf Hew Her Hw Hr Ha. induction 1 as [|x l Hx _ IHl]; cbn [vitems res_items]; [reflexivity|].
+    rewrite (IH we wi x Hx re ri k f Hk Hf Hew Her Hw Hr Ha), IHl. reflexivity.
+  Qed.
+
+  Lemma entries_agreeS we re wv rv k f (l : list (bytes * aval)) : (n <= k)%nat -> (n <= f)%nat ->
+    env_scoped we = true -> env_scoped re = true -> scoped we wv = true -> scoped re rv = true ->
+    agreen k we re wv rv = true ->
+    Forall (fun kv => key_ok (fst kv) /\ typedn n we wv (snd kv)) l ->
+    vmap_items (fun a => rval f we re ropts0 wv (Some rv) a) l = res_entries (resolve we re) wv rv l.
+  Proof.
+    intros Hk Hf Hew Her Hw Hr Ha. induction 1 as [|[key x] l [_ Hx] _ IHl]; cbn [vmap_items res_entries]; [reflexivity|].
+    cbn [snd] in Hx. rewrite (IH we wv x Hx re rv k f Hk Hf Hew Her Hw Hr Ha), IHl. reflexivity.
+  Qed.
+
+  Lemma fields_agreeS we re rfs k f : (n <= k)%nat -> (n <= f)%nat -> env_scoped we = true -> env_scoped re = true ->
+    forallb (fun rf : field => scoped re (ftype rf)) rfs = true ->
+    forall wfs l acc, Forall2 (fun fd a => typedn n we (ftype fd) a) wfs l ->
+    forallb (fun wf : field => scoped we (ftype wf)) wfs = true ->
+    forallb (fun wf => match reader_field rfs (fname wf) with
+                       | Some rf => agreen k we re (ftype wf) (ftype rf)
+                       | None => true end) wfs = true ->
+    vfields (rval f we re ropts0) rfs wfs l acc = res_fields (resolve we re) rfs wfs l acc.
+  Proof.
+    intros Hk Hf Hew Her Hrfs wfs l acc H. revert acc. induction H as [|wf x wfs l Hx _ IHl]; intros acc Hi Ha; cbn [vfields res_fields]; [reflexivity|].
+    cbn [forallb] in Hi, Ha. apply andb_prop in Hi. destruct Hi as [Hi1 Hi2]. apply andb_prop in Ha. destruct Ha as [Ha1 Ha2].
+    destruct (reader_field rfs (fname wf)) as [rf|] eqn:E.
+    - assert (Hrf : scoped re (ftype rf) = true).
+      { rewrite forallb_forall in Hrfs. apply Hrfs. eapply reader_field_in. exact E. }
+      rewrite (IH we (ftype wf) x Hx re (ftype rf) k f Hk Hf Hew Her Hi1 Hrf Ha1).
+      destruct (resolve we re (ftype wf) (ftype rf) x); cbn [rbind]; try reflexivity. apply IHl; assumption.
+    - apply IHl; assumption.
+  Qed.
+
+  Lemma body_agreeS we re w b a k f : typedn (S n) we w a -> (n <= k)%nat -> (n <= f)%nat ->
+    env_scoped we = true -> env_scoped re = true ->
+    nonref w = true -> scoped we w = true -> nonref b = true -> scoped re b = true ->
+    is_union w = false -> is_union b = false ->
+    smatch we re true w b = true -> node_ok k we re w b = true ->
+    rbody f we re ropts0 w (Some b) a = resolve we re w b a.
+  Proof.
+    intros Ht Hk Hf Hew Her Hnw Hw Hnb Hb Huw Hub Hm Hs.
+    dnode w Hw Hnw ltw pw; try discriminate Huw;
+      try (apply (proj1 (typedn_annot _ _ _ _ _)) in Ht; apply typedn_mono in Ht);
+      destruct a; cbn [typedn] in Ht; try contradiction;
+      dnode b Hb Hnb ltb pb; try discriminate Hub;
+      cbn [smatch deref Read.resolve strip named_match prim_match] in Hm; try discriminate Hm;
+      cbn [node_ok] in Hs; try discriminate Hs; try reflexivity.
+    - (* fixed *)
+      cbn [resolve]; cbv zeta; cbn [deref Read.resolve strip reader_side]. rewrite Hm. reflexivity.
+    - (* enum *)
+      cbn [resolve]; cbv zeta; cbn [deref Read.resolve strip reader_side]. rewrite Hm.
+      unfold rbody. cbn [strip]. destruct (nthZ syms i) as [sym|]; [|reflexivity].
+      unfold enum_symbol. cbn [truthy is_dict is_list is_str negb andb strip].
+      destruct (mem sym syms0); [reflexivity|]. destruct dflt0 as [[|c d]|]; try discriminate Hs; reflexivity.
+    - (* array *)
+      destruct Ht as [_ Hl]. cbn [scoped] in Hw, Hb.
+      cbn [resolve]; cbv zeta; cbn [deref Read.resolve strip reader_side]. rewrite Hm.
+      unfold rbody. cbn [strip truthy r_items is_dict is_list is_str negb andb rbind].
+      rewrite (items_agreeS we re w b k f l Hk Hf Hew Her Hw Hb Hs Hl).
+      destruct (res_items (resolve we re) w b l); reflexivity.
+    - (* map *)
+      destruct Ht as [_ Hl]. cbn [scoped] in Hw, Hb.
+      cbn [resolve]; cbv zeta; cbn [deref Read.resolve strip reader_side]. rewrite Hm.
+      unfold rbody. cbn [strip truthy r_values is_dict is_list is_str negb andb rbind].
+      rewrite (entries_agreeS we re w b k f l Hk Hf Hew Her Hw Hb Hs Hl).
+      destruct (res_entries (resolve we re) w b l); reflexivity.
+    - (* record *)
+      cbn [scoped] in Hw, Hb. apply andb_prop in Hs. destruct Hs as [Hs Hd]. pose proof (guard_always fs0 fs) as Hg.
+      cbn [resolve]; cbv zeta; cbn [deref Read.resolve strip reader_side]. rewrite Hm.
+      unfold rbody. cbn [strip r_fields is_dict is_list is_str negb andb rbind].
+      rewrite (fields_agreeS we re fs0 k f Hk Hf Hew Her Hb fs l [] Ht Hw Hs).
+      destruct (res_fields (resolve we re) fs0 fs l []) as [record| | |] eqn:E; cbn [rbind]; try reflexivity.
+      assert (Hkeys : keys_inv record (rec_keys fs0 fs [])).
+      { rewrite <- (fields_agreeS we re fs0 k f Hk Hf Hew Her Hb fs l [] Ht Hw Hs) in E. eapply vfields_keys; [|exact E]. reflexivity. }
+      rewrite (finish_eq re fs0 fs record Hkeys Hd Hg).
+      destruct (spec_defaults re (field_table fs0) record); reflexivity.
+  Qed.
+End BodyS.
+
+Lemma spec_idx_stripS we re s rbs : nonref s = true -> scoped we s = true ->
+  spec_idx we re (strip s) rbs = spec_idx we re s rbs.
+Proof.
+  intros Hn Hs. unfold spec_idx.
+  assert (H0 : find_idx (same_named we re (strip s)) rbs = find_idx (same_named we re s) rbs).
+  { apply find_idx_ext. intros b _. dnode s Hs Hn lts ps; reflexivity. }
+  assert (H1 : forall promo, find_idx (smatch we re promo (strip s)) rbs = find_idx (smatch we re promo s) rbs).
+  { intros promo. apply find_idx_ext. intros b _. dnode s Hs Hn lts ps; try reflexivity;
+      cbn [strip smatch]; destruct (deref re b); reflexivity. }
+  rewrite H0, !H1. reflexivity.
+Qed.
+
+Lemma spec_idx_derefS we re w rbs : env_scoped we = true -> scoped we w = true ->
+  spec_idx we re (deref we w) rbs = spec_idx we re w rbs.
+Proof.
+  intros He Hw. destruct (deref1_node we w He Hw) as (Hn & Hs & Hd & _).
+  rewrite Hd, (spec_idx_stripS we re (deref1 we w) rbs Hn Hs). apply spec_idx_deref1; assumption.
+Qed.
+
+Lemma deref_nonunionS e w : env_scoped e = true -> scoped e w = true -> is_union (deref1 e w) = false ->
+  is_union (deref e w) = false.
+Proof.
+  intros He Hw Hu. destruct (deref1_node e w He Hw) as (Hn & Hs & Hd & _). rewrite Hd.
+  set (w' := deref1 e w) in *. clearbody w'. dnode w' Hs Hn ltw pw; try discriminate Hu; reflexivity.
+Qed.
+
+(* typing follows a reference *)
+Lemma typedn_deref1 we m w a : typedn (S m) we w a -> typedn (S m) we (deref1 we w) a.
+Proof.
+  intros Ht. destruct w; try exact Ht. apply typedn_ref in Ht. destruct Ht as (d & Hl & Ht). cbn [deref1]. rewrite Hl.
+  apply typedn_mono. exact Ht.
+Qed.
+
+Lemma resolve_reject_gen we re m w r a : env_scoped we = true -> env_scoped re = true ->
+  scoped we w = true -> scoped re r = true -> is_union (deref1 we w) = false -> is_union (deref1 re r) = false ->
+  typedn (S m) we w a -> smatch we re true w r = false -> resolve we re w r a = RErrResolution.
+Proof.
+  intros Hew Her Hw Hr Huw Hur Ht Hm.
+  destruct (deref1_node we w Hew Hw) as (Hnw & Hsw & _ & _). destruct (deref1_node re r Her Hr) as (Hnr & Hsr & _ & _).
+  rewrite <- (resolve_deref1_w we re w r a Hew Hw), <- (resolve_deref1_r we re (deref1 we w) r a Her Hr).
+  apply (resolve_rejectS we re m); try assumption.
+  - apply typedn_deref1. exact Ht.
+  - rewrite (smatch_deref1_r we re true (deref1 we w) r Her Hr), (smatch_deref1_w we re true w r Hew Hw). exact Hm.
+Qed.
+
+Lemma fits_gen we m w a : env_scoped we = true -> scoped we w = true -> is_union (deref1 we w) = false ->
+  typedn (S m) we w a -> fits (deref we w) a = true.
+Proof.
+  intros He Hw Hu Ht. destruct (deref1_node we w He Hw) as (Hn & Hs & Hd & _). rewrite Hd.
+  apply (typed_fitsS we m); try assumption. apply typedn_deref1. exact Ht.
+Qed.
+
+(* the specification on a reader union: resolves against the picked branch *)
+Lemma resolve_pick we re w rbs j b a : env_scoped we = true -> env_scoped re = true ->
+  scoped we w = true -> is_union (deref1 we w) = false -> scoped re (SUnion rbs) = true ->
+  spec_idx we re w rbs = Some j -> nth_error rbs j = Some b ->
+  resolve we re w (SUnion rbs) a = resolve we re w (deref1 re b) a /\ resolve we re w (SUnion rbs) a = resolve we re w b a.
+Proof.
+  intros Hew Her Hw Huw Hr Hj Hn.
+  destruct (scoped_branch re rbs b Hr (nth_error_In _ _ Hn)) as [Hbs Hbu].
+  pose proof (nonunion_deref1 re b Her Hbs Hbu) as Hbu'.
+  assert (E : resolve we re w (SUnion rbs) a = resolve we re w b a).
+  { apply resolve_reader_side; [apply deref_nonunionS; assumption|].
+    rewrite (reader_sideS_union we re (deref we w) rbs j b Her (eq_trans (spec_idx_derefS we re w rbs Hew Hw) Hj) Hn Hbs Hbu').
+    rewrite (reader_sideS_plain we re (deref we w) b Her Hbs Hbu'). reflexivity. }
+  split; [|exact E]. rewrite E. symmetry. apply resolve_deref1_r; assumption.
+Qed.
+
+Lemma resolve_no_branch we re m w rbs a : env_scoped we = true -> scoped we w = true -> is_union (deref1 we w) = false ->
+  typedn (S m) we w a -> spec_idx we re w rbs = None -> resolve we re w (SUnion rbs) a = RErrResolution.
+Proof.
+  intros He Hw Hu Ht Hk. apply (error_no_branch we re w (SUnion rbs) a rbs).
+  - apply deref_nonunionS; assumption.
+  - eapply fits_gen; eassumption.
+  - reflexivity.
+  - rewrite pick_branch_idx, (spec_idx_derefS we re w rbs He Hw), Hk. reflexivity.
+Qed.
+
+Lemma reader_branch_idx_topS we re wb rbs : env_scoped we = true -> env_scoped re = true ->
+  scoped we wb = true -> is_union (deref1 we wb) = false -> scoped re (SUnion rbs) = true ->
+  reader_branch_idx (fun l => match_types_top we re l wb) rbs = ROk (spec_idx we re wb rbs).
+Proof. intros H1 H2 H3 H4 H5. exact (reader_branch_idx_scoped we re (mfuel wb) wb rbs H1 H2 (proj2 (mfuel_ge wb)) H3 H4 H5). Qed.
+
+Lemma match_types_topS we re wb r : env_scoped we = true -> env_scoped re = true ->
+  scoped we wb = true -> scoped re r = true -> match_types_top we re 2 wb r = ROk (smatch we re true wb r).
+Proof. intros H1 H2 H3 H4. exact (match_types_scoped we re (mfuel wb) wb r H1 H2 (proj2 (mfuel_ge wb)) H3 H4). Qed.
+
+Theorem rval_resolveS : forall n we w a, typedn n we w a -> forall re r k f, (n <= k)%nat -> (n <= f)%nat ->
+  env_scoped we = true -> env_scoped re = true -> scoped we w = true -> scoped re r = true ->
+  agreen k we re w r = true ->
+  rval f we re ropts0 w (Some r) a = resolve we re w r a.
+Proof.
+  induction n as [|n IH]; intros we w a Ht re r k f Hk Hf Hew Her Hw Hr Ha; [destruct Ht|].
+  destruct f as [|f]; [lia|]. destruct k as [|k]; [lia|].
+  assert (Hf' : (n <= f)%nat) by lia. assert (Hk' : (n <= k)%nat) by lia.
+  rewrite rval_S.
+  destruct (deref1_node re r Her Hr) as (Hnr & Hsr & _ & Hidr).
+  destruct (nonref w) eqn:Hnw.
+  2:{ (* ---- a by-name reference: one step to its definition *)
+    destruct w as [| | | | | | | | | | | | | |nm|]; try discriminate Hnw.
+    apply typedn_ref in Ht. destruct Ht as (d & Hl & Ht).
+    destruct (lookup_scoped we nm d Hew Hl) as [Hnd Hsd]. destruct (named_core_facts d Hnd) as (Hnrd & Hstrd & Hud & _).
+    assert (Hd1 : deref1 we (SRef nm) = d) by (cbn [deref1]; rewrite Hl; reflexivity).
+    assert (Huw : is_union (deref1 we (SRef nm)) = false) by (rewrite Hd1; exact Hud).
+    rewrite agreen_ref, Hl in Ha. apply andb_prop in Ha. destruct Ha as [Htr Ha].
+    destruct n as [|m]; [destruct Ht|].
+    assert (Hbody : forall R', rbody f we re ropts0 (SRef nm) R' a = rval f we re ropts0 d R' a).
+    { intros R'. unfold rbody. cbn [strip]. rewrite Hl. destruct (rval f we re ropts0 d R' a); reflexivity. }
+    assert (Hspec : forall r0, resolve we re (SRef nm) r0 a = resolve we re d r0 a).
+    { intros r0. rewrite <- (resolve_deref1_w we re (SRef nm) r0 a Hew Hw), Hd1. reflexivity. }
+    unfold matched. rewrite (truthy_some r Htr).
+    destruct (is_union (deref1 re r)) eqn:Hur.
+    - (* reader union *)
+      destruct (deref1 re r) as [| | | | | | | | | | | |rbs| | |] eqn:Erd; try discriminate Hur.
+      pose proof (deref1_union re r rbs Her Hr Erd) as ->. clear Erd.
+      rewrite (match_top_scoped_union we re (SRef nm) rbs Hew Hw Huw), Hd1, reader_branch_nth.
+      rewrite (reader_branch_idx_scoped we re (pred (mfuel (SRef nm))) d rbs Hew Her ltac:(destruct d; try discriminate Hnd; cbn; lia) Hsd
+                 ltac:(rewrite (deref1_nonref we d Hnrd); exact Hud) Hr).
+      rewrite <- Hd1, (spec_idx_deref1 we re (SRef nm) rbs Hew Hw). cbn [rbind].
+      destruct (spec_idx we re (SRef nm) rbs) as [j|] eqn:Hj; cbn [nth_opt].
+      + destruct (spec_idx_range _ _ _ _ _ Hj) as (b & Hnth). rewrite Hnth in Ha |- *. cbn [rbind].
+        destruct (scoped_branch re rbs b Hr (nth_error_In _ _ Hnth)) as [Hbs Hbu].
+        destruct (deref1_node re b Her Hbs) as (_ & Hsb' & _ & _).
+        rewrite Hbody, (IH we d a Ht re (deref1 re b) k f Hk' Hf' Hew Her Hsd Hsb' Ha), <- Hspec.
+        symmetry. apply (resolve_pick we re (SRef nm) rbs j b a Hew Her Hw Huw Hr Hj Hnth).
+      + symmetry. apply (resolve_no_branch we re (S m) (SRef nm) rbs a Hew Hw Huw); [|exact Hj].
+        apply typedn_ref. exists d. split; [exact Hl|exact Ht].
+    - (* reader not a union *)
+      assert (Ha2 : (if smatch we re true (SRef nm) r then agreen k we re d (deref1 re r) else true) = true)
+        by (destruct (deref1 re r); try discriminate Hur; exact Ha).
+      rewrite (match_top_scoped we re (SRef nm) r Hew Her Hw Hr Huw Hur).
+      destruct (smatch we re true (SRef nm) r) eqn:Hm; cbn [rbind].
+      + rewrite Hbody, (IH we d a Ht re (deref1 re r) k f Hk' Hf' Hew Her Hsd Hsr Ha2), <- Hspec.
+        apply resolve_deref1_r; assumption.
+      + symmetry. apply (resolve_reject_gen we re (S m) (SRef nm) r a Hew Her Hw Hr Huw Hur); [|exact Hm].
+        apply typedn_ref. exists d. split; [exact Hl|exact Ht]. }
+  destruct (is_union w) eqn:Hu.
+  - (* ---- the writer schema is a union *)
+    destruct w as [| | | | | | | | | | | |wbs| | |]; try discriminate Hu.
+    destruct a; cbn [typedn] in Ht; try contradiction. destruct Ht as (_ & wb & Hn & Hx).
+    rewrite agreen_union in Ha. apply andb_prop in Ha. destruct Ha as [Htr Ha].
+    unfold matched. rewrite (truthy_some r Htr), match_top_union_writer. cbn [rbind].
+    unfold rbody. cbn [strip]. rewrite Hn.
+    assert (Hin : In wb wbs) by (eapply nthZ_In; exact Hn).
+    destruct (scoped_branch we wbs wb Hw Hin) as [Hwbs Hwbu].
+    pose proof (nonunion_deref1 we wb Hew Hwbs Hwbu) as Hwbu'.
+    rewrite forallb_forall in Ha. specialize (Ha wb Hin).
+    destruct n as [|m]; [destruct Hx|].
+    assert (Hres : resolve we re (SUnion wbs) r (AUnion i a) = resolve we re wb r a).
+    { cbn [resolve]; cbv zeta. cbn [deref Read.resolve strip]. rewrite Hn. reflexivity. }
+    rewrite Hres.
+    destruct (is_union (deref1 re r)) eqn:Hur.
+    + destruct (deref1 re r) as [| | | | | | | | | | | |rbs| | |] eqn:Erd; try discriminate Hur.
+      pose proof (deref1_union re r rbs Her Hr Erd) as ->. clear Erd.
+      rewrite (union_reader_union we re wb rbs Htr), reader_branch_nth.
+      rewrite (reader_branch_idx_topS we re wb rbs Hew Her Hwbs Hwbu' Hr). cbn [rbind].
+      destruct (spec_idx we re wb rbs) as [j|] eqn:Hj; cbn [nth_opt].
+      * destruct (spec_idx_range _ _ _ _ _ Hj) as (b & Hnth). rewrite Hnth in Ha |- *. cbn [rbind].
+        destruct (scoped_branch re rbs b Hr (nth_error_In _ _ Hnth)) as [Hbs Hbu].
+        rewrite (IH we wb a Hx re b k f Hk' Hf' Hew Her Hwbs Hbs Ha).
+        rewrite (proj2 (resolve_pick we re wb rbs j b a Hew Her Hwbs Hwbu' Hr Hj Hnth)).
+        destruct (resolve we re wb b a); reflexivity.
+      * symmetry. apply (resolve_no_branch we re m wb rbs a Hew Hwbs Hwbu' Hx Hj).
+    + assert (Ha2 : (if smatch we re true wb r then agreen k we re wb (deref1 re r) else true) = true)
+        by (destruct (deref1 re r); try discriminate Hur; exact Ha).
+      rewrite (union_reader_plain we re wb (deref1 re r) Hur), (match_types_topS we re wb (deref1 re r) Hew Her Hwbs Hsr).
+      rewrite (smatch_deref1_r we re true wb r Her Hr). cbn [rbind].
+      destruct (smatch we re true wb r) eqn:Hm; cbn [rbind].
+      * rewrite (IH we wb a Hx re (deref1 re r) k f Hk' Hf' Hew Her Hwbs Hsr Ha2), (resolve_deref1_r we re wb r a Her Hr).
+        destruct (resolve we re wb r a); reflexivity.
+      * symmetry. apply (resolve_reject_gen we re m wb r a Hew Her Hwbs Hr Hwbu' Hur Hx Hm).
+  - (* ---- the writer schema is neither a union nor a reference *)
+    assert (Huw : is_union (deref1 we w) = false) by (rewrite (deref1_nonref we w Hnw); exact Hu).
+    rewrite (agreen_node k we re w r Hnw Hu) in Ha. apply andb_prop in Ha. destruct Ha as [Htr Ha].
+    unfold matched. rewrite (truthy_some r Htr).
+    destruct (is_union (deref1 re r)) eqn:Hur.
+    + destruct (deref1 re r) as [| | | | | | | | | | | |rbs| | |] eqn:Erd; try discriminate Hur.
+      pose proof (deref1_union re r rbs Her Hr Erd) as ->. clear Erd.
+      rewrite (match_top_scoped_union we re w rbs Hew Hw Huw), (deref1_nonref we w Hnw), reader_branch_nth.
+      rewrite (reader_branch_idx_scoped we re (pred (mfuel w)) w rbs Hew Her (proj1 (mfuel_ge w)) Hw Huw Hr). cbn [rbind].
+      destruct (spec_idx we re w rbs) as [j|] eqn:Hj; cbn [nth_opt].
+      * destruct (spec_idx_range _ _ _ _ _ Hj) as (b & Hnth). rewrite Hnth in Ha |- *. cbn [rbind].
+        destruct (scoped_branch re rbs b Hr (nth_error_In _ _ Hnth)) as [Hbs Hbu].
+        destruct (deref1_node re b Her Hbs) as (Hnb' & Hsb' & _ & _).
+        pose proof (nonunion_deref1 re b Her Hbs Hbu) as Hbu'.
+        pose proof (spec_idx_smatchS we re w rbs j b Hew Her Hw Huw Hr Hj Hnth) as Hm.
+        rewrite <- (smatch_deref1_r we re true w b Her Hbs) in Hm.
+        rewrite (body_agreeS n IH we re w (deref1 re b) a k f Ht Hk' Hf' Hew Her Hnw Hw Hnb' Hsb' Hu Hbu' Hm Ha).
+        symmetry. apply (resolve_pick we re w rbs j b a Hew Her Hw Huw Hr Hj Hnth).
+      * symmetry. apply (resolve_no_branch we re n w rbs a Hew Hw Huw Ht Hj).
+    + assert (Ha2 : (if smatch we re true w r then node_ok k we re w (deref1 re r) else true) = true)
+        by (destruct (deref1 re r); try discriminate Hur; exact Ha).
+      rewrite (match_top_scoped we re w r Hew Her Hw Hr Huw Hur).
+      destruct (smatch we re true w r) eqn:Hm; cbn [rbind].
+      * rewrite <- (smatch_deref1_r we re true w r Her Hr) in Hm.
+        rewrite (body_agreeS n IH we re w (deref1 re r) a k f Ht Hk' Hf' Hew Her Hnw Hw Hnr Hsr Hu Hur Hm Ha2).
+        apply resolve_deref1_r; assumption.
+      * symmetry. apply (resolve_reject_gen we re n w r a Hew Her Hw Hr Huw Hur Ht Hm).
+Qed.
+
+(** reading with a reader schema = decode, then the SPECIFICATION, with by-name references *)
+Theorem rdec_resolve_zoneS : forall n we w a, typedn n we w a ->
+  forall re r k f x, (n <= k)%nat -> (n <= f)%nat ->
+  env_scoped we = true -> env_scoped re = true -> scoped we w = true -> scoped re r = true ->
+  agreen k we re w r = true ->
+  rdec f we re ropts0 w (Some r) (wire a ++ x) = lift x (resolve we re w r a).
+Proof.
+  intros n we w a Ht re r k f x Hk Hf Hew Her Hw Hr Ha.
+  rewrite (rdec_rval_wire n we w a Ht f Hf re ropts0 (Some r) x).
+  rewrite (rval_resolveS n we w a Ht re r k f Hk Hf Hew Her Hw Hr Ha). reflexivity.
+Qed.
+
 
 From Coq Require Import String.
 Open Scope string_scope. Open Scope Z_scope.
@@ -1894,3 +2709,9 @@ Lemma witnesses_in_zone :
   agree [] [] SInt SFloat = true /\
   agree g5_e g5_e g5_u g5_u = true.
 Proof. repeat split; vm_compute; reflexivity. Qed.
+
+(** the witnesses with by-name references lie inside the zone with references *)
+Lemma ref_witnesses_in_zone :
+  (env_scoped f7_we && env_scoped f7_re && scoped f7_we f7_w && scoped f7_re f7_r && agreen 6 f7_we f7_re f7_w f7_r = true) /\
+  (env_scoped g1_we && env_scoped g1_re && scoped g1_we g1_w && scoped g1_re g1_r && agreen 6 g1_we g1_re g1_w g1_r = true).
+Proof. split; vm_compute; reflexivity. Qed.
